@@ -124,13 +124,13 @@ mod fmt {
                 .iter()
                 .map(|param| {
                     let tokens = &tokens[param.offset..];
-                    add_all_comments(
-                        param.fmt(tokens, f),
-                        match param.as_ref() {
-                            ParameterDeclaration::Valid { info, .. } => info.slice(tokens),
-                            ParameterDeclaration::Error(info) => info.slice(tokens),
-                        },
-                    )
+                    match param.as_ref() {
+                        ParameterDeclaration::Valid { info, .. } => {
+                            add_all_comments(param.fmt(tokens, f), info.slice(tokens))
+                        }
+                        // an error is printed token by token, comments included
+                        ParameterDeclaration::Error(_) => param.fmt(tokens, f),
+                    }
                 })
                 .collect();
             let params = if param_vec.is_empty() {
@@ -159,13 +159,13 @@ mod fmt {
                 .iter()
                 .map(|var_dec| {
                     let tokens = &tokens[var_dec.offset..];
-                    add_all_comments(
-                        var_dec.fmt(tokens, f),
-                        match var_dec.as_ref() {
-                            VariableDeclaration::Valid { info, .. } => info.slice(tokens),
-                            VariableDeclaration::Error(info) => info.slice(tokens),
-                        },
-                    )
+                    match var_dec.as_ref() {
+                        VariableDeclaration::Valid { info, .. } => {
+                            add_all_comments(var_dec.fmt(tokens, f), info.slice(tokens))
+                        }
+                        // an error is printed token by token, comments included
+                        VariableDeclaration::Error(_) => var_dec.fmt(tokens, f),
+                    }
                 })
                 .collect();
             let var_decs = indent(var_decs, f);
